@@ -114,6 +114,45 @@ def verdict (busy : List Nat) (c0 : Cfg) (ops : List HOp) (obs : List HObs) : St
       | none => "ok"
       | some e => e
 
+/-! ### servers of several kinds (c07.mixed) -/
+
+/-- what socket `x` must look like when generation `g` with configuration `c` is in force -/
+def expectedCell (c : Cfg) (g x : Nat) : Nat × String :=
+  if c.addrs.contains x then (1, toString g) else (0, "-")
+
+/-- the law of one reload of the mixed stream: a configuration valid for the environment loads and afterwards every socket it
+names has exactly one descriptor and is answered by the new generation's server FOR THAT ADDRESS (an answer from a server of
+another address is rendered `misrouted…` by the driver and never equals the expected answer), every other socket is closed;
+an invalid one fails and changes nothing -/
+def mixedStepLaw (busy codes : List Nat) (prev : List (Nat × String)) (c : Cfg) (g : Nat) (o : MObs) : Option String :=
+  if o.mis then some "misrouted"
+  else if valid busy c then
+    if o.res != "ok" then some "valid-config-rejected"
+    else if o.cells != codes.map (expectedCell c g) then some "wrong-sockets-or-answers"
+    else none
+  else
+    if o.res != "err" then some "invalid-config-accepted"
+    else if o.cells != prev then some "failed-reload-changed-state"
+    else none
+
+def mixedCheck (busy codes : List Nat) : List (Nat × String) → Nat → List Cfg → List MObs → Option String
+  | _, _, [], [] => none
+  | prev, g, c :: cs, o :: os =>
+    match mixedStepLaw busy codes prev c g o with
+    | some e => some s!"bad:{e}:op {g - 1}"
+    | none => mixedCheck busy codes o.cells (g + 1) cs os
+  | _, _, _, _ => some "bad:length:number of steps differs from the number of operations"
+
+def mixedVerdict (busy codes : List Nat) (c0 : Cfg) (cs : List Cfg) (obs : List MObs) : String :=
+  match obs with
+  | [] => "bad:length:no observation"
+  | o0 :: rest =>
+    if o0.mis then "bad:misrouted:op 0"
+    else if o0.res != "ok" || o0.cells != codes.map (expectedCell c0 1) then "bad:start:op 0"
+    else match mixedCheck busy codes o0.cells 2 cs rest with
+      | none => "ok"
+      | some e => e
+
 /-! ### storm traces -/
 
 /-- one reload of a storm: logical times of call and return, generation, whether it succeeded -/
